@@ -12,6 +12,8 @@ module in place; all of them preserve behaviour by construction:
   reverse_kwargs  keyword arguments of every call in reverse order (positional
                   arguments and `**kw` untouched; argument expressions in this
                   code base are free of side effects on each other).
+  keyword_arguments  positional arguments of calls to module-level package functions and
+                  `self.` methods (names unique in the package) passed by keyword.
 """
 from __future__ import annotations
 
@@ -330,10 +332,83 @@ def hoist_arguments(scratch: str) -> List[str]:
     return _rewrite(scratch, lambda tree, src, full: _Hoister().visit(tree))
 
 
+# ------------------------------------------------------------------ argument style
+def _package_signatures(scratch: str) -> Dict[str, List[str]]:
+    """name -> positional parameter names, for module-level functions and methods whose name is
+    defined exactly once in the package and that take neither *args nor positional-only
+    parameters (methods: without self)."""
+    seen: Dict[str, List[List[str]]] = {}
+    for full in _modules(scratch):
+        with open(full) as fh:
+            tree = ast.parse(fh.read())
+        for node in ast.walk(tree):
+            if isinstance(node, ast.ClassDef):
+                for f in node.body:
+                    if isinstance(f, ast.FunctionDef):
+                        a = f.args
+                        ok = not a.vararg and not a.posonlyargs and not any(
+                            isinstance(d, ast.Name) and d.id in ("staticmethod", "classmethod", "property")
+                            or isinstance(d, ast.Attribute) for d in f.decorator_list)
+                        seen.setdefault("." + f.name, []).append(
+                            [x.arg for x in a.args][1:] if ok else None)
+        for f in tree.body:
+            if isinstance(f, ast.FunctionDef):
+                a = f.args
+                ok = not a.vararg and not a.posonlyargs and not f.decorator_list
+                seen.setdefault(f.name, []).append([x.arg for x in a.args] if ok else None)
+    return {k: v[0] for k, v in seen.items() if len(v) == 1 and v[0] is not None}
+
+
+class _ArgStyler(ast.NodeTransformer):
+    """Positional arguments of calls to package functions / `self.` methods become keyword
+    arguments (same values, same callee parameters)."""
+
+    def __init__(self, sigs: Dict[str, List[str]], local_names: Set[str]):
+        self.sigs = sigs
+        self.local_names = local_names
+
+    def visit_Call(self, node):
+        self.generic_visit(node)
+        if any(isinstance(a, ast.Starred) for a in node.args) or not node.args:
+            return node
+        params = None
+        if isinstance(node.func, ast.Name) and node.func.id in self.sigs \
+                and node.func.id in self.local_names:
+            params = self.sigs[node.func.id]
+        elif isinstance(node.func, ast.Attribute) and isinstance(node.func.value, ast.Name) \
+                and node.func.value.id == "self" and "." + node.func.attr in self.sigs:
+            params = self.sigs["." + node.func.attr]
+        if params is None or len(node.args) > len(params):
+            return node
+        used = {k.arg for k in node.keywords}
+        names = params[:len(node.args)]
+        if used & set(names):
+            return node
+        node.keywords = [ast.keyword(arg=n, value=a) for n, a in zip(names, node.args)] + node.keywords
+        node.args = []
+        return node
+
+
+def keyword_arguments(scratch: str) -> List[str]:
+    """`f(a, b)` -> `f(x=a, y=b)` for calls of module-level package functions (defined or
+    imported by name in the calling module) and of `self.` methods whose name is unique in
+    the package."""
+    sigs = _package_signatures(scratch)
+
+    def transform(tree, src, full):
+        local = {f.name for f in tree.body if isinstance(f, ast.FunctionDef)}
+        for st in tree.body:
+            if isinstance(st, ast.ImportFrom) and (st.module or "").startswith("oqupy"):
+                local |= {a.asname or a.name for a in st.names}
+        return _ArgStyler(sigs, local).visit(tree)
+    return _rewrite(scratch, transform)
+
+
 def all_rewrites(scratch: str) -> List[str]:
     """All rewrites applied one after the other (temporaries first, so that they are renamed
     like every other local)."""
     out = []
-    for f in (hoist_arguments, rename_locals, flip_branches, swap_comparisons, reverse_kwargs):
+    for f in (hoist_arguments, keyword_arguments, rename_locals, flip_branches, swap_comparisons,
+              reverse_kwargs):
         out = f(scratch)
     return out
